@@ -1084,9 +1084,32 @@ func (a *analysis) guardedLoad(v ssa.Value) string {
 	return k
 }
 
+// insPos: position of an instruction, or of its first operand that has one,
+// or of the enclosing function.
+func insPos(ins ssa.Instruction) token.Pos {
+	if p := ins.Pos(); p.IsValid() {
+		return p
+	}
+	var buf [8]*ssa.Value
+	for _, op := range ins.Operands(buf[:0]) {
+		if op == nil || *op == nil {
+			continue
+		}
+		if p := (*op).Pos(); p.IsValid() {
+			return p
+		}
+		if u, ok := (*op).(*ssa.UnOp); ok {
+			if p := u.X.Pos(); p.IsValid() {
+				return p
+			}
+		}
+	}
+	return ins.Parent().Pos()
+}
+
 func (a *analysis) accesses(fi *fnInfo, st relState, ins ssa.Instruction, rec func(site)) {
 	emit := func(k string, w bool, note string) {
-		rec(site{kind: siteAccess, st: st, pos: ins.Pos(), field: k, write: w, note: note})
+		rec(site{kind: siteAccess, st: st, pos: insPos(ins), field: k, write: w, note: note})
 	}
 	switch x := ins.(type) {
 	case *ssa.Store:
@@ -1133,7 +1156,7 @@ func (a *analysis) accesses(fi *fnInfo, st relState, ins ssa.Instruction, rec fu
 // and guarded field addresses passed to calls.
 func (a *analysis) callAccesses(fi *fnInfo, st relState, ins ssa.Instruction, c *ssa.CallCommon, rec func(site)) {
 	emit := func(k string, w bool, note string) {
-		rec(site{kind: siteAccess, st: st, pos: ins.Pos(), field: k, write: w, note: note})
+		rec(site{kind: siteAccess, st: st, pos: insPos(ins), field: k, write: w, note: note})
 	}
 	if b, ok := c.Value.(*ssa.Builtin); ok {
 		for i, arg := range c.Args {
@@ -1499,7 +1522,24 @@ func main() {
 	a.collecting = false
 
 	controlLock := lmID(lm{"home.homeContext.controlLock", true})
+	// state-changing admin handlers start under home.controlLock only as long as
+	// the wrapper home.ensure still takes it
+	ensureLocks := false
+	for _, f := range a.order {
+		if a.fnName(f) == "home.ensure$1" {
+			for _, st := range a.fns[f].sites {
+				if st.kind == siteAcquire && st.acq == controlLock {
+					ensureLocks = true
+				}
+			}
+		}
+	}
 	roots := a.findRoots(controlLock)
+	if !ensureLocks {
+		for i := range roots {
+			roots[i].entry = set{}
+		}
+	}
 
 	// propagation: contexts are (function, entry lock set)
 	type ctxKey struct {
@@ -1609,7 +1649,13 @@ func main() {
 		if x.Write != y.Write {
 			return !x.Write
 		}
-		return strings.Join(x.Held, ",") < strings.Join(y.Held, ",")
+		if x.Fn != y.Fn {
+			return x.Fn < y.Fn
+		}
+		if hx, hy := strings.Join(x.Held, ","), strings.Join(y.Held, ","); hx != hy {
+			return hx < hy
+		}
+		return x.Note < y.Note
 	})
 	var ol []*orderOut
 	for _, o := range ords {
